@@ -114,3 +114,12 @@ package posix
 //@   at-call meta.MetadataStorer.StoreAttribute {C20} [legal-hold-attribute-is-one-byte] when $3 == "object-legal-hold" :: requires len($4) == 1
 //@ func (*Posix) CompleteMultipartUpload
 //@   at-call meta.MetadataStorer.StoreAttribute {C20} [legal-hold-attribute-is-one-byte] when $3 == "object-legal-hold" :: requires len($4) == 1
+
+// C17: the account's user and group id decide the ownership of what the account creates — completely: each id is
+// taken from the account exactly when the gateway is configured to chown by it and it differs from the gateway's own,
+// and a chown is requested exactly when at least one of the two is taken.
+//@ func (*Posix) getChownIDs
+//@   frame none
+//@   ensures {C17} [uid-from-account] ret0 == ite(p.chownuid && acct.UserID != p.euid, acct.UserID, p.euid)
+//@   ensures {C17} [gid-from-account] ret1 == ite(p.chowngid && acct.GroupID != p.egid, acct.GroupID, p.egid)
+//@   ensures {C17} [chown-iff-any-id-differs] ret2 == ((p.chownuid && acct.UserID != p.euid) || (p.chowngid && acct.GroupID != p.egid))
